@@ -342,6 +342,8 @@ pub struct Render<'a> {
     pub prog: &'a Program,
     /// parameter names of the enclosing definition
     pub params: &'a [ParamDecl],
+    /// array lengths are written as the const generic parameter `N` (see `Program::render_for`)
+    pub sym_arrays: bool,
 }
 
 impl<'a> Render<'a> {
@@ -373,14 +375,15 @@ impl<'a> Render<'a> {
                     format!("({})", list(a))
                 }
             }
+            Ty::Array(_, t) if self.sym_arrays => format!("[{}; N]", self.ty(t)),
             Ty::Array(n, t) => format!("[{}; {}]", self.ty(t), n),
-            Ty::Seq(SeqKind::Vec, t) if self.prog.name_style == 1 => format!("sp_std::vec::Vec<{}>", self.ty(t)),
+            Ty::Seq(SeqKind::Vec, t) if self.prog.name_style & 1 != 0 => format!("sp_std::vec::Vec<{}>", self.ty(t)),
             Ty::Seq(SeqKind::Vec, t) => format!("Vec<{}>", self.ty(t)),
             Ty::Seq(SeqKind::VecDeque, t) => format!("VecDeque<{}>", self.ty(t)),
             Ty::Seq(SeqKind::Slice, t) => format!("[{}]", self.ty(t)),
             Ty::Opt(t) => format!("Option<{}>", self.ty(t)),
             Ty::Res(a, b) => format!("Result<{}, {}>", self.ty(a), self.ty(b)),
-            Ty::Ptr(PtrKind::Box, t) if self.prog.name_style == 1 => format!("alloc::boxed::Box<{}>", self.ty(t)),
+            Ty::Ptr(PtrKind::Box, t) if self.prog.name_style & 1 != 0 => format!("alloc::boxed::Box<{}>", self.ty(t)),
             Ty::Ptr(PtrKind::Box, t) => format!("Box<{}>", self.ty(t)),
             Ty::Ptr(PtrKind::Rc, t) => format!("Rc<{}>", self.ty(t)),
             Ty::Ptr(PtrKind::Arc, t) => format!("Arc<{}>", self.ty(t)),
@@ -393,7 +396,7 @@ impl<'a> Render<'a> {
             Ty::RangeIncl(t) => format!("RangeInclusive<{}>", self.ty(t)),
             Ty::NonZero(p) => format!("NonZero{}", p.name().to_uppercase()),
             Ty::Duration => "Duration".to_string(),
-            Ty::Compact(t) if self.prog.name_style == 1 => format!("codec::Compact<{}>", self.ty(t)),
+            Ty::Compact(t) if self.prog.name_style & 1 != 0 => format!("codec::Compact<{}>", self.ty(t)),
             Ty::Compact(t) => format!("Compact<{}>", self.ty(t)),
             Ty::BitVec(s, msb) => format!("BitVec<{}, {}>", s.name(), if *msb { "Msb0" } else { "Lsb0" }),
             Ty::BitVecP(a, b) => format!("BitVec<{}, {}>", self.ty_raw(a), self.ty_raw(b)),
@@ -408,8 +411,31 @@ impl Program {
         Render {
             prog: self,
             params: &[],
+            sym_arrays: false,
         }
         .ty(t)
+    }
+
+    /// The renderer of field type names inside definition `d`. With `name_style & 2` a definition whose
+    /// fields contain exactly ONE array type is read as `struct D<.., const N: usize>` and the array as
+    /// `[T; N]`: the derive records the type name as written, and const parameters are not type parameters,
+    /// so two instantiations that differ in N are two entries with one path, equal parameters and equal
+    /// type names that differ only in the array length.
+    pub fn render_for<'a>(&'a self, d: &'a Def) -> Render<'a> {
+        let mut arrays = 0;
+        for f in d.all_fields() {
+            f.ty.any(&mut |t| {
+                if matches!(t, Ty::Array(..)) {
+                    arrays += 1;
+                }
+                false
+            });
+        }
+        Render {
+            prog: self,
+            params: &d.params,
+            sym_arrays: self.name_style & 2 != 0 && arrays == 1,
+        }
     }
 
     /// For every definition and parameter: can the argument influence the wire shape of an
@@ -542,11 +568,8 @@ impl Program {
     pub fn to_text(&self) -> String {
         let mut s = String::new();
         for (i, d) in self.defs.iter().enumerate() {
-            let r = Render {
-                prog: self,
-                params: &d.params,
-            };
-            let _ = writeln!(s, "// def {i} at {}", d.path.join("::"));
+            let r = self.render_for(d);
+            let _ = writeln!(s, "// def {i} at {}{}", d.path.join("::"), if r.sym_arrays { " (const N: usize)" } else { "" });
             for l in &d.docs {
                 let _ = writeln!(s, "///{l}");
             }
